@@ -138,11 +138,20 @@ class Check(PropertyCheck):
             jobs2, h2 = copy.deepcopy(jobs), list(h1)
             field = "none"
             if not same:
-                field = rng.choice(["other_history", "prefix", "dur"])
+                field = rng.choice(["other_history", "prefix", "dur", "dur_unscheduled", "dur_unscheduled"])
                 if field == "other_history":
                     h2 = hist(jobs)
                 elif field == "prefix":
                     h2 = h1[:-3]
+                elif field == "dur_unscheduled":
+                    # the same PARTIAL (possibly empty) history on two instances that differ in an operation not scheduled yet
+                    keep = rng.randint(0, max(0, len(h1) // 3 - 1))
+                    h1 = h1[:3 * keep]
+                    h2 = list(h1)
+                    done = {(h1[k], h1[k + 1]) for k in range(0, len(h1), 3)}
+                    rest = [(j, p) for j, job in enumerate(jobs2) for p in range(len(job)) if (j, p) not in done]
+                    j, p = rng.choice(rest)
+                    jobs2[j][p] = (jobs2[j][p][0], jobs2[j][p][1] + rng.choice([1, 2]))
                 else:
                     j = rng.randrange(len(jobs2))
                     p = rng.randrange(len(jobs2[j]))
@@ -355,5 +364,6 @@ class Check(PropertyCheck):
         if isinstance(o, jsl.JobShopInstance):
             return ("inst", tuple(tuple(self.content(op) for op in job) for job in o.jobs))
         if isinstance(o, jsl.Schedule):
-            return ("sched", tuple(tuple(self.content(x) for x in ms) for ms in o.schedule))
+            # (a schedule belongs to an instance: partial - or empty - schedules of instances that differ are different schedules)
+            return ("sched", self.content(o.instance), tuple(tuple(self.content(x) for x in ms) for ms in o.schedule))
         raise TypeError(o)
